@@ -417,7 +417,11 @@ fn arbitrary_variant(u: &mut Unstructured, weight: &[usize]) -> Result<usize> {
             Some(*sum)
         })
         .collect();
-    let selected = u.int_in_range(0..=prefix_sum[prefix_sum.len() - 1] - 1)?;
+    let total = prefix_sum.last().copied().unwrap_or(0);
+    if total == 0 {
+        return Err(Error::msg("no variant case can be chosen"));
+    }
+    let selected = u.int_in_range(0..=total - 1)?;
     for (i, e) in prefix_sum.iter().enumerate() {
         if selected < *e {
             return Ok(i);
